@@ -35,6 +35,8 @@ TRUSTED = [
     "braket back end is driven with a stub Device/QuantumTask returning real GateModelQuantumTaskResult objects; the "
     "AwsDevice branch with a session-less AwsDevice subclass whose `properties` carries service.shotsRange and "
     "supportedOperations (the two things sampling.py / transpiler.py read)",
+    "real-device stream: braket.devices.LocalSimulator (state vector / density matrix) of the installed SDK executes the "
+    "remapped circuit; its sampling is trusted only to stay inside the exact support (checked outcome by outcome)",
     "QiskitSamplingBackend (sampling.py of the qiskit package, the in-tree caller of utils.py) runs on the installed "
     "qiskit BasicSimulator (subclassed only to record the shots of each run and to advertise max_shots)",
 ]
@@ -630,6 +632,43 @@ class DeviceDown(RuntimeError):
     """what a scripted device raises from run() (a network / service failure)"""
 
 
+_RESULT_FORM = [0]
+
+
+def braket_result(mq, rows, shots):
+    """a GateModelQuantumTaskResult for the given shots in one of the shapes a caller can meet, in rotation: the bare
+    object of unit tests (only measurements + measured_qubits), the constructor with EVERY optional field populated
+    (histogram keyed by bit strings in measured-qubit order, probabilities, metadata, provenance flags), and the
+    object the SDK itself builds from a device's wire result (from_object, which derives the histogram)"""
+    import numpy as np
+    from braket.tasks import GateModelQuantumTaskResult
+
+    arr = np.array(rows, dtype=int).reshape(len(rows), len(mq))
+    _RESULT_FORM[0] += 1
+    form = _RESULT_FORM[0] % 3
+    try:
+        if form and len(rows) and len(mq):
+            from braket.task_result import AdditionalMetadata, GateModelTaskResult, TaskMetadata
+
+            tm = TaskMetadata(id="stub-task", shots=int(shots), deviceId="stub-device")
+            try:
+                am = AdditionalMetadata()
+            except Exception:  # noqa: BLE001
+                am = None
+            if form == 2 and am is not None:
+                return GateModelQuantumTaskResult.from_object(GateModelTaskResult(
+                    measurements=[[int(b) for b in r] for r in arr.tolist()], measuredQubits=[int(q) for q in mq],
+                    taskMetadata=tm, additionalMetadata=am))
+            hist = Counter("".join(str(int(b)) for b in r) for r in arr.tolist())
+            return GateModelQuantumTaskResult(
+                task_metadata=tm, additional_metadata=am, measurements=arr, measured_qubits=list(mq), measurement_counts=hist,
+                measurement_probabilities={k: v / len(rows) for k, v in hist.items()}, measurements_copied_from_device=True,
+                measurement_counts_copied_from_device=False, measurement_probabilities_copied_from_device=False)
+    except Exception:  # noqa: BLE001 – an SDK without these fields: the bare form is always available
+        pass
+    return GateModelQuantumTaskResult(task_metadata=None, additional_metadata=None, measurements=arr, measured_qubits=list(mq))
+
+
 def _stub_run(self, circ, shots, **kw):
     """`script[i](used_qubits, shots) -> (measured_qubits, rows)`; a script entry may raise (Device.run failure) or
     return a ready-made result object instead of the pair"""
@@ -646,9 +685,7 @@ def _stub_run(self, circ, shots, **kw):
     else:
         mq, rows = got
         self.calls.append((used, shots, mq, rows))
-        t = StubTask(GateModelQuantumTaskResult(task_metadata=None, additional_metadata=None,
-                                                measurements=np.array(rows, dtype=int).reshape(len(rows), len(mq)),
-                                                measured_qubits=list(mq)))
+        t = StubTask(braket_result(mq, rows, shots))
     t.cancel_raises = bool(getattr(self, "cancel_raises", False))
     self.tasks.append(t)
     return t
@@ -1587,7 +1624,126 @@ def entry_qiskit_shots(ctx: Ctx):
                         {"backend": label}, {"got": got, "want": want})
 
 
+def gapped_mapping(rng, n, top=12):
+    """injective maps of 0..n-1 whose image is NOT an initial segment: enlarged register with idle qubits below /
+    between / above the used ones, every second qubit, a descending run, a shifted block, a permutation with a hole"""
+    shape = rng.choice(["random-gaps", "random-gaps", "stride", "descending", "block", "low-hole", "far"])
+    if shape == "stride":
+        st, off = rng.choice([2, 3]), rng.choice([0, 1, 2])
+        vals = [off + st * k for k in range(n)]
+    elif shape == "descending":
+        vals = sorted(rng.sample(range(1, top), n), reverse=True)
+    elif shape == "block":
+        off = rng.randint(1, 6)
+        vals = [off + k for k in range(n)]
+        rng.shuffle(vals)
+    elif shape == "low-hole":  # a permutation of 0..n with one low label left out
+        hole = rng.randrange(n)
+        vals = [v for v in range(n + 1) if v != hole]
+        rng.shuffle(vals)
+    elif shape == "far":
+        vals = rng.sample([0, 1, 2, 5, 17, 31, 32, 33, 40, 62, 64, 65, 100], n)
+    else:
+        vals = rng.sample(range(top), n)
+    items = list(zip(range(n), vals))
+    rng.shuffle(items)
+    return items, shape
+
+
+def ghz_like(rng, n):
+    """(gates, [initial label sets of the branches]): optionally H on one qubit, then classical reversible gates —
+    the exact distribution is uniform on the images of the one or two branches"""
+    gates, branches = [], [set()]
+    if rng.random() < 0.55:
+        q = rng.randrange(n)
+        gates.append({"name": "H", "t": [q], "c": [], "cl": [], "params": [], "pauli": [], "um": []})
+        branches = [set(), {q}]
+        for t in range(n):  # fan-out: the GHZ ladder, then anything classical
+            if t != q and rng.random() < 0.7:
+                gates.append({"name": "CNOT", "t": [t], "c": [q], "cl": [], "params": [], "pauli": [], "um": []})
+    gates += [classical_gate(rng, list(range(n))) for _ in range(rng.randint(0, 5))]
+    return gates, branches
+
+
+def support_of(orc, n, gates, branches, marked):
+    cl = [g for g in gates if g["name"] != "H"] + ([MARKER] if marked else [])
+    return {orc.from_ones(orc.classical_run(real_circuit(n, 0, cl).gates, set(b))) for b in branches}
+
+
+def entry_real_backends(ctx: Ctx, count: int):
+    """The SDKs' own simulators, nothing scripted: BraketSamplingBackend on braket.devices.LocalSimulator (state
+    vector and density matrix; it measures only the qubits the circuit touches, so a gapped mapping gives a result
+    whose measured_qubits is not 0..k-1 and whose every optional field is populated by the SDK) — directly, and
+    behind an AwsDevice front that splits the shots; basis-state and GHZ-like circuits; every outcome must lie in the
+    exact support of the ORIGINAL circuit, the total must be the shots, and a deterministic circuit must give its
+    one outcome."""
+    try:
+        from braket.devices import LocalSimulator
+
+        from quri_parts.braket.backend.sampling import BraketSamplingBackend
+    except Exception as e:  # noqa: BLE001
+        ctx.count("entry.real", "braket-unavailable:" + type(e).__name__)
+        return
+    from oracle import c18_remap as orc
+
+    rng = ctx.rng
+    sims = {}
+    for _ in range(count):
+        n = rng.randint(1, 4)
+        items, shape = gapped_mapping(rng, n) if rng.random() < 0.8 else (list(zip(range(n), rng.sample(range(n), n))), "perm")
+        m = dict(items)
+        gates, branches = ghz_like(rng, n)
+        targ, marked, tform = transpiler_form(rng)
+        support = support_of(orc, n, gates, branches, marked)
+        backend_name = rng.choice(["default", "default", "braket_sv", "braket_dm"])
+        shots = rng.randint(1, 24)
+        front = rng.choice(["direct", "direct", "aws-split"])
+        try:
+            with warnings.catch_warnings():
+                warnings.simplefilter("ignore")
+                sim = sims.get(backend_name) or sims.setdefault(backend_name, LocalSimulator(backend_name))
+        except Exception as e:  # noqa: BLE001
+            ctx.count("entry.real", f"{backend_name}-unavailable:{type(e).__name__}")
+            continue
+        measured = []
+        if front == "aws-split":
+            dev = aws_stub((1, rng.choice([2, 3, 5])), ALL_OPS)
+
+            def script(used, s, dev=dev, sim=sim):
+                with warnings.catch_warnings():
+                    warnings.simplefilter("ignore")
+                    res = sim.run(dev.last_circuit, shots=s).result()
+                measured.append([int(q) for q in res.measured_qubits])
+                return res  # the SDK's own result object, as it is
+
+            dev.script = [script] * 64
+        else:
+            dev = sim
+        inp = {**describe(items, n, 0, gates), "mapping_shape": shape, "shots": shots, "device": f"LocalSimulator({backend_name!r})",
+               "front": front, "circuit_transpiler": tform, "exact_support_of_original": sorted(support)}
+        try:
+            with warnings.catch_warnings():
+                warnings.simplefilter("ignore")
+                be = BraketSamplingBackend(dev, qubit_mapping=mapping_form(items, rng.choice(MAPPING_FORMS)), **targ)
+                job = be.sample(circuit_form(real_circuit(n, 0, gates), rng.choice(CIRCUIT_FORMS)), shots)
+                got = dict(job.result().counts)
+        except Exception as e:  # noqa: BLE001
+            got = "raised " + type(e).__name__
+        ctx.evaluations += 1
+        ctx.count("entry.real", f"braket/{backend_name}/{front}/{shape}/{len(branches)}-branch")
+        f64 = max(m.values()) == 63 or any(mq and max(mq) == 63 for mq in measured)
+        bad = isinstance(got, str) or not set(got) <= support or sum(got.values()) != shots
+        if bad and f64:
+            ctx.witness(FINDING_F64, "BraketSamplingResult.counts computes the key in float64 when the largest measured qubit label is 63",
+                        inp, {"got": got if isinstance(got, str) else sorted(got.items())})
+        elif bad:
+            ctx.witness("braket-real-device-counts", "remap → run on Braket's LocalSimulator → un-map gives outcomes outside the exact "
+                        "distribution of the original circuit (or loses shots)", inp,
+                        {"got": got if isinstance(got, str) else sorted(got.items()), "want_outcomes_within": sorted(support), "want_total": shots})
+
+
 def entry_points(ctx: Ctx, scale: int = 1):
+    entry_real_backends(ctx, ctx.n(150, 3000) * scale)
     entry_braket(ctx, ctx.n(160, 4000) * scale)
     entry_braket_guards(ctx)
     entry_qiskit(ctx, ctx.n(100, 1500) * scale)
